@@ -370,6 +370,9 @@ func finishObs(s *run.Session, ob *attemptObs, o attemptOpts) {
 		return
 	}
 	errCalls := func() {
+		if o.CancelBeforeError {
+			s.Cancel()
+		}
 		if o.InlineError && ob.Res.InlineErrDone {
 			ob.Err1 = &run.ErrorResult{Err: ob.Res.InlineErr, Verdict: run.Returned}
 		} else if o.ErrorCalls >= 1 {
